@@ -393,6 +393,9 @@ func holdersOverlap(tr []aEvent, nclients int) bool {
 			closes = e.T > nclients && len(e.A) == 2 && num(e.A[0]) == 3 && num(e.A[1]) == 2
 		case "swap":
 			closes = e.T == 0
+		case "store":
+			// the same write with the old value not asked for (2 = idle)
+			closes = e.T == 0 && len(e.A) == 1 && num(e.A[0]) == 2
 		}
 		for j := range open {
 			if j != e.T {
